@@ -306,6 +306,16 @@ def h_aggregate(env, n, keysets, via, lo, canary=False):
     env.check_eq(res.n_shots, total(ref), f"aggregate ({via}): total counts conserved")
     for i, (h, d) in enumerate(zip(hs, ins)):
         cmp_dict(env, h.counts, d, f"aggregate ({via}): input histogram {i} unchanged")
+    if via == "iadd" and not canary:
+        # a histogram built directly from the caller's dictionary (no copy on our side) and incremented in place: the caller's
+        # dictionary, and another histogram built from it, keep their values
+        raw = dict(ins[0])
+        twin = Histogram(raw)
+        acc = Histogram(raw)
+        for h in hs[1:]:
+            acc += h
+        cmp_dict(env, raw, ins[0], "aggregate (iadd): the dictionary the histogram was built from is unchanged")
+        cmp_dict(env, twin.counts, ins[0], "aggregate (iadd): another histogram built from the same dictionary is unchanged")
 
 
 def _index_sets(n, max_size):
@@ -349,9 +359,13 @@ def h_post_select(env, n, keys, kind, expected_list, canary=False):
         if canary:
             ref_counts = marginal(v, set(exp))
         h = Histogram(dict(v))
+        if kind == "counts":
+            env.check_eq(h.n_shots, total(v), "n_shots before post-selection")      # derived quantities are read BEFORE ...
         h.post_select(dict(exp))
         cmp_dict(env, h.counts, ref_counts, f"Histogram.post_select: entries are the selected counts with the selected positions removed [{exp}]",
                  width=n - len(exp))
+        if kind == "counts":
+            env.check_eq(h.n_shots, total(ref_counts), f"Histogram.n_shots after post_select is the number of selected shots [{exp}]")   # ... and after
         if not sel:
             env.check_same(post_select(dict(v), dict(exp)), {}, f"post_select: nothing selected gives an empty result [{exp}]")
             continue
